@@ -59,19 +59,36 @@ def make_collection(tracks):
     from tracklib.core.obs_time import ObsTime
     from tracklib.core.track_collection import TrackCollection
     out, tag = [], 0
+    # the numbers of a feature are carried by python floats, numpy double-precision or integer scalars (features filled from
+    # numpy arrays) or python ints, by turns (single precision is left out: a mean computed in single precision is only
+    # accurate to 1e-7, which the exact comparison of this check would report)
+    allv = [v for pts in tracks for (x, y, v) in pts if v is not None and v == v and abs(v) != float("inf")]
+    carrier = (len(allv) + int(sum(abs(v) for v in allv) * 4)) % 4
+    if carrier >= 2 and any(v != int(v) for v in allv):
+        carrier = 0
+
+    def cv(v):
+        import numpy as np
+        if v is None:
+            return np.float64("nan") if carrier == 1 else float("nan")
+        if carrier == 1:
+            return np.float64(v)
+        if carrier >= 2 and v == v and abs(v) != float("inf"):
+            return np.int64(v) if carrier == 2 else int(v)
+        return float(v)
     for pts in tracks:
         tr = Track([Obs(ENUCoords(float(x), float(y), 0.0), ObsTime()) for (x, y, v) in pts])
         # the tracks of a collection need not store their features in the same order: every other track has an extra
         # feature first and creates 'v' before 'tag'
         if len(out) % 2:
             tr.createAnalyticalFeature("extra", [1000.0 + k for k in range(len(pts))])
-            tr.createAnalyticalFeature("v", [float("nan") if v is None else float(v) for (x, y, v) in pts])
+            tr.createAnalyticalFeature("v", [cv(v) for (x, y, v) in pts])
             tr.createAnalyticalFeature("tag", [float(tag + k + 1) for k in range(len(pts))])
             tag += len(pts)
             out.append(tr)
             continue
         tr.createAnalyticalFeature("tag", [float(tag + k + 1) for k in range(len(pts))])
-        tr.createAnalyticalFeature("v", [float("nan") if v is None else float(v) for (x, y, v) in pts])
+        tr.createAnalyticalFeature("v", [cv(v) for (x, y, v) in pts])
         tag += len(pts)
         out.append(tr)
     return TrackCollection(out)
